@@ -105,9 +105,10 @@ def main(run):
         clock = Clock()
         model = Models(rnd.choice(["scalar", "multi", "grow"]), names, exact=False, clock=clock)
         st = make_storage(spec, clock)
+        falsy = {j: (rnd.randrange(m), rnd.choice([0, 0.0, False, ""])) for j in range(d) if rnd.random() < 0.5}
         for t in range(m):
-            st.update({f: 1000 * (t + 1) + j for j, f in enumerate(names)}, t)
-        defaults = {f: -(j + 1) for j, f in enumerate(names)}
+            st.update({f: (falsy[j][1] if j in falsy and falsy[j][0] == t else 1000 * (t + 1) + j) for j, f in enumerate(names)}, t)
+        defaults = {f: (rnd.choice([0, 0.0, False, "", None]) if rnd.random() < 0.4 else -(j + 1)) for j, f in enumerate(names)}
         imp = DefaultImputer(model, dict(defaults)) if kind == "default" else MarginalImputer(model, strategy, st)
         x = {f: 900000 + j for j, f in enumerate(names)}
         x["extra"] = 7
